@@ -114,6 +114,7 @@ def run(ctx) -> Result:
     mul = proj.method(cls, "__mul__")
     rmul = proj.method(cls, "__rmul__")
     res.saw(mul, rmul)
+    _check_scaling_concrete(res, proj, cls, mul, rmul)
     for factor in (3, 2.5):
         sym_pen = [[Sym("B", (i,)) for i in range(6)], [Sym("T", (i,)) for i in range(6)]]
         captured = []
@@ -136,12 +137,6 @@ def run(ctx) -> Result:
         res.check(good, "G2", f"ScoringScheme.__mul__:factor={factor}", mul.loc(),
                   ok_detail="returns ScoringScheme([[k*B[i]], [k*T[i]]]) and stores nothing on self",
                   bad_detail=f"returned {ret!r}, constructor args {captured!r}, effects {evl.effects!r}")
-    body = rmul.body_without_docstring()
-    good = len(body) == 1 and isinstance(body[0], ast.Return) and src(body[0].value) in (
-        f"self.__mul__({rmul.param_names[1]})", f"self * {rmul.param_names[1]}")
-    res.check(good, "G2", "ScoringScheme.__rmul__:delegates", rmul.loc(), ok_detail="k * scheme == scheme * k",
-              bad_detail=f"__rmul__ does not delegate to __mul__: {src(body[0]) if body else ''}")
-
     check_equivalence(res, proj, ctx.thorough, "G3")
 
     # ------------------------------------------------------------------ G4
@@ -202,6 +197,38 @@ def run(ctx) -> Result:
     return res
 
 
+def _check_scaling_concrete(res: Result, proj, cls, mul, rmul):
+    """scheme * k and k * scheme on real ScoringScheme instances: every penalty times the factor *exactly* (ordinary,
+    tiny, huge and non-dyadic factors; penalties with many binary digits), a new object, the original untouched."""
+    from .datamodel import World
+    w = World(proj)
+    tables = [[[0., 1., 1., 0., 1., 1.], [1., 1., 0., 1., 1., 0.]],
+              [[0., 1., .5, 0., 1., .5], [.5, .5, 0., .5, .5, 0.]],
+              [[0., 2., .125, 1., 3., 1 / 3], [.125, .125, 0., 2., 2., 5.]]]
+    factors = [3, 2.5, 7, 2.0 ** -31, 1e-13, 1e9, 1 / 3, 0.1]
+    bad = None
+    n = 0
+    for tbl in tables:
+        for k in factors:
+            for side in ("scheme * k", "k * scheme"):
+                sch = w.rt.new(cls, [[list(tbl[0]), list(tbl[1])]], {})
+                st, r = w.safe(side, w.call, sch, "__mul__" if side == "scheme * k" else "__rmul__", k)
+                n += 1
+                want = [[x * float(k) for x in tbl[0]], [x * float(k) for x in tbl[1]]]
+                if st != "ok":
+                    bad = bad or (tbl, k, side, f"raises {r}")
+                    continue
+                got = [list(v) for v in r.attrs["_penalty_vectors"]] if hasattr(r, "attrs") and "_penalty_vectors" in r.attrs else None
+                if got != want:
+                    bad = bad or (tbl, k, side, f"gives {got}, every penalty times the factor is {want}")
+                elif r is sch or [list(v) for v in sch.attrs["_penalty_vectors"]] != tbl:
+                    bad = bad or (tbl, k, side, "the original scheme was modified / returned")
+    res.check(bad is None, "G2", "ScoringScheme.__mul__/__rmul__:exact-products", mul.loc(),
+              ok_detail=f"{n} products (3 tables x {len(factors)} factors from 1e-13 to 1e9, both operand orders): exactly "
+                        f"every penalty times the factor, new object",
+              bad_detail=f"{bad[2]} with k={bad[1]!r} on {bad[0]}: {bad[3]}" if bad else "")
+
+
 def check_equivalence(res: Result, proj, thorough: bool, rule: str):
     """G3 (shared with C10/K4, C12/B5, C14/A5): the equivalence test the applicability guards rely on."""
     cls = proj.cls(MOD, "ScoringScheme")
@@ -256,6 +283,13 @@ def _pool(thorough: bool) -> List:
         [[0, 2, 1, 0, 0, 0], [1, 1, 0, 0, 0, 0]],          # B x2 on one entry, T x1
         [[0, 2, 2, 0, 2, 2], [1, 1, 0, 1, 1, 0]],          # B x2, T x1
     ]
+    # the relation is scale-free: tiny and huge multiples (and non-multiples with the same zero pattern at that scale)
+    half = [[[0, 1, .5, 0, 1, .5], [.5, .5, 0, .5, .5, 0]], [[0, 1, .5, 0, 1, 0], [.5, .5, 0, .5, .5, 0]],
+            [[0, 1, .75, 0, 1, 0], [.75, .75, 0, .75, .75, 0]]]
+    for tbl in [base[0], base[5], base[7]] + half:
+        for factor in (2.0 ** -34, 2.0 ** 40):
+            base.append([[x * factor for x in tbl[0]], [x * factor for x in tbl[1]]])
+    base.extend(half)
     if thorough:
         for b2, t0, t3, b5 in itertools.product((0, 1, 2), repeat=4):
             base.append([[0, 1, b2, 0, 1, b5], [t0, t0, 0, t3, t3, 0]])
